@@ -1,5 +1,5 @@
 """What MANIFEST.json claims, per property (edited as the framework grows)."""
-FIX_COMMITS = ["4727107", "486f7ce", "d05ddbd", "f423e4b", "7fe0d0d", "5df9647", "d27b645", "987e38c", "2cef112", "982202e"]
+FIX_COMMITS = ["4727107", "486f7ce", "d05ddbd", "f423e4b", "7fe0d0d", "5df9647", "d27b645", "987e38c", "2cef112", "982202e", "f86aa9e", "c129ca9"]
 
 ENGINE_NOTE = ("Trusted: Coq 8.16.1 kernel (vm_compute for table obligations; no axioms: every theorem is "
                "'Closed under the global context'); tools/translate.py (reflective dump of the live classes, "
@@ -83,4 +83,16 @@ CLAIMED["C07"] = dict(
          "offending statement is reached at all, the message text and the reader's physical-line bookkeeping are "
          "checked by exhaustive position enumeration. Fixed form excluded (documented look-ahead).",
     technique="Rocq proof (K5 barrier invariant by induction over engine model) + regenerated tables + correspondence + exhaustive statement-position enumeration")
+CLAIMED["C06"] = dict(
+    design_ref="DESIGN.md 4 (C06), 3.4 (K8)",
+    text="Theorem K8 (EVERY table): if the statement-level matchers raise only NoMatchError, FortranSyntaxError and "
+         "InternalSyntaxError, the parse ends in a tree, nothing, a FortranSyntaxError, or one of three named "
+         "mechanisms (reader.error() process exit; SymbolTableError; out-of-fuel of the model); the engine adds no "
+         "other exception kinds (proved by induction over the engine model); the process-exit path is refuted by a "
+         "computed witness (finding F2). Tie: regenerated tables + engine correspondence on mutated programs "
+         "(outcome type compared). Search: 1.5k/150k mutated programs and random texts with a 20 s alarm, files "
+         "with invalid UTF-8.",
+    note=ENGINE_NOTE + " Partial (named _partial): which exceptions the ~400 statement-level match bodies raise, "
+         "termination (the model uses explicit fuel) and wall-clock time are explored, not proved.",
+    technique="Rocq proof (exception-flow invariant by induction over engine model) + regenerated tables + correspondence + mutation/random-text fuzzing with timeouts")
 NOT_CLAIMED = {}
